@@ -932,6 +932,20 @@ class Interp:
         vals = mod.assigns(ident)
         if vals:
             return self.modconst(mod, ident, depth)
+        # `A, B, C = <sequence>` at module level (flat tuple / list target)
+        key = (mod.rel, ident)
+        if key in self._modconst:
+            return self._modconst[key]
+        for st in mod.tree.body:
+            if isinstance(st, ast.Assign):
+                for t in st.targets:
+                    if isinstance(t, (ast.Tuple, ast.List)) and all(isinstance(e, ast.Name) for e in t.elts) and any(e.id == ident for e in t.elts):
+                        seq = list(self.iterate(self.ev(st.value, {}, mod, depth), st.value))
+                        if len(seq) != len(t.elts):
+                            raise Raised("ValueError")
+                        for e, v in zip(t.elts, seq):
+                            self._modconst[(mod.rel, e.id)] = v
+                        return self._modconst[key]
         if ident == "__name__":
             return getattr(mod, "dotted", None) or mod.rel[:-3].replace("/", ".")
         if ident in SAFE_BUILTINS:
